@@ -30,7 +30,9 @@ VARIABLES gep,                       \* Global.epoch
           ug, inst, act, dep, st, ran \* ghost: user guards, critical-section instance, active-at-defer, epoch at deferral, task state
 vars == <<gep, lep, lpin, gc, hc, coll, must, bag, queue, alive, pc, ret, reg, ip, tctx, ug, inst, act, dep, st, ran>>
 
-NoReg == [e |-> 0, gc0 |-> 0, scan |-> {}, trials |-> 0, cur |-> <<>>, sole |-> FALSE]
+\* gc0 is a stack: a deferred function that drops a guard of its own runs a second `unpin` inside the collection
+\* phase of the first (found by trace validation: one register was overwritten and the outer call wrote back 1)
+NoReg == [e |-> 0, gc0 |-> <<>>, scan |-> {}, trials |-> 0, cur |-> <<>>, sole |-> FALSE]
 Init ==
   /\ gep = 0 /\ lep = [p \in P |-> 0] /\ lpin = [p \in P |-> FALSE]
   /\ gc = [p \in P |-> 0] /\ hc = [p \in P |-> 1] /\ coll = [p \in P |-> FALSE] /\ must = [p \in P |-> FALSE]
@@ -152,7 +154,7 @@ PinReset(p) ==
 \* Local::unpin (456-478)
 Unpin0(p) ==
   /\ pc[p] = "unpin0"
-  /\ reg' = [reg EXCEPT ![p].gc0 = gc[p]]
+  /\ reg' = [reg EXCEPT ![p].gc0 = <<gc[p]>> \o @]
   /\ IF (gc[p] = 1 \/ "UnpinInnerCollects" \in Mut) /\ ~coll[p]
        THEN coll' = [coll EXCEPT ![p] = TRUE] /\ Goto(p, "uc_loop")
        ELSE UNCHANGED coll /\ Goto(p, "unpin_dec")
@@ -165,9 +167,10 @@ UcLoop(p) ==
   /\ UNCHANGED <<gep, lep, lpin, gc, hc, bag, queue, alive, ip, tctx, ug, inst, act, dep, st, ran>>
 UnpinDec(p) ==     \* writes back the count read before the collection (470)
   /\ pc[p] = "unpin_dec"
-  /\ gc' = [gc EXCEPT ![p] = reg[p].gc0 - 1]
-  /\ IF reg[p].gc0 = 1 \/ "UnpinInnerClears" \in Mut THEN Goto(p, "unpin_store") /\ UNCHANGED ret ELSE Return(p)
-  /\ UNCHANGED <<gep, lep, lpin, hc, coll, must, bag, queue, alive, reg, ip, tctx, ug, inst, act, dep, st, ran>>
+  /\ gc' = [gc EXCEPT ![p] = Head(reg[p].gc0) - 1]
+  /\ reg' = [reg EXCEPT ![p].gc0 = Tail(@)]
+  /\ IF Head(reg[p].gc0) = 1 \/ "UnpinInnerClears" \in Mut THEN Goto(p, "unpin_store") /\ UNCHANGED ret ELSE Return(p)
+  /\ UNCHANGED <<gep, lep, lpin, hc, coll, must, bag, queue, alive, ip, tctx, ug, inst, act, dep, st, ran>>
 UnpinStore(p) ==
   /\ pc[p] = "unpin_store"
   /\ lpin' = [lpin EXCEPT ![p] = FALSE]
